@@ -64,6 +64,30 @@ type sigDesc struct {
 	Logs []any  `json:"logs,omitempty"`
 }
 
+type hashDesc struct {
+	Op    string `json:"op"`
+	Input string `json:"input"`
+}
+
+// hashCase: eth.Keccak on one input, compared by Coq with Model/Keccak.keccak256
+// and here with the harness's own Keccak-256.
+func hashCase(out *lib.Out, in []byte, kind string) {
+	var got []byte
+	p, pmsg := lib.Catch(func() { got = eth.Keccak(append([]byte(nil), in...)) })
+	want := abi.Keccak256(in)
+	ok, msg := true, ""
+	switch {
+	case p:
+		ok, msg = false, "eth.Keccak panicked: "+pmsg
+	case !bytes.Equal(got, want):
+		ok, msg = false, fmt.Sprintf("eth.Keccak of %d bytes is %x, Keccak-256 is %x", len(in), got, want)
+	}
+	obs := append([]byte(nil), got...)
+	out.Add(lib.Case{Coq: fmt.Sprintf("CHash %s %s", abi.CB(in), abi.CB(obs)),
+		Desc: hashDesc{Op: "keccak", Input: hex.EncodeToString(in)}, Kind: kind, Nontrivial: len(in) > 0,
+		OracleOK: ok, OracleMsg: msg, Size: len(in)})
+}
+
 func sigCase(out *lib.Out, d *abi.Decl, kind, wantHash string) {
 	var sig string
 	var sh []byte
@@ -98,6 +122,7 @@ func sigCase(out *lib.Out, d *abi.Decl, kind, wantHash string) {
 			abi.CB([]byte(sig)), lib.CNat(dig.VerifNumIndexed(d.Event))),
 		Desc: sigDesc{Op: "signature", JSON: d.JSON, Sig: sig}, Kind: kind, Nontrivial: nontriv || wantHash != "",
 		OracleOK: ok, OracleMsg: msg, Size: len(d.JSON)})
+	hashCase(out, []byte(want), "keccak-signature")
 }
 
 type logDesc struct {
@@ -322,9 +347,9 @@ func runC13(cfg lib.Cfg) error {
 		return replayC13(cfg, out)
 	}
 	r := lib.NewRNG(cfg.Seed)
-	nSig, nGate, nMulti := 300, 30, 5
+	nSig, nGate, nMulti, nHash := 300, 30, 5, 30
 	if cfg.Thorough() {
-		nSig, nGate, nMulti, gateMaxData = 8000, 400, 40, 1500
+		nSig, nGate, nMulti, nHash, gateMaxData = 8000, 400, 40, 2000, 1500
 	}
 	for _, k := range knownEvents() {
 		d, err := abi.NewDecl(k.name, k.ins)
@@ -353,6 +378,14 @@ func runC13(cfg lib.Cfg) error {
 			return err
 		}
 		sigCase(out, d, "signature-random", "")
+	}
+	// Keccak at the block boundaries of the sponge (rate 136) and on random inputs
+	hr := r.Fork()
+	for _, n := range []int{0, 1, 55, 56, 134, 135, 136, 137, 271, 272, 273} {
+		hashCase(out, hr.Bytes(n), "keccak-boundary-length")
+	}
+	for i := 0; i < nHash; i++ {
+		hashCase(out, hr.Bytes(hr.Intn(600)), "keccak-random")
 	}
 	for i := 0; i < nGate; i++ {
 		g := &abi.Gen{R: r.Fork(), MaxDepth: 2}
@@ -419,7 +452,7 @@ func runC13(cfg lib.Cfg) error {
 		}
 	}
 	out.Notes["gate_sequences"] = "every integration is built, then unrelated eth.Keccak / Tx.Hash calls are made, then its logs are processed; in addition groups of 2-4 integrations are all built first and processed in construction order and in reverse order; the stored hash, Event.SignatureHash() and Filter().Topics() are compared with the independent Keccak-256 again at the end of every case"
-	out.Notes["keccak"] = "eth.Keccak / Event.SignatureHash compared with an independent Keccak-256 written in the harness on every signature, and with the known topics of Transfer, Approval and Seaport OrderFulfilled"
+	out.Notes["keccak"] = "eth.Keccak on every canonical signature, on inputs of length 0,1,55,56,134,135,136,137,271,272,273 and on random inputs up to 600 bytes: compared by Coq with the executable Model/Keccak.keccak256 (CHash) and here with an independent Keccak-256 written in the harness; Event.SignatureHash also with the known topics of Transfer, Approval and Seaport OrderFulfilled; every gate case recomputes the stored hash as keccak256(event_sig) in the model"
 	return out.Flush()
 }
 
@@ -468,9 +501,10 @@ func replayC13(cfg lib.Cfg, out *lib.Out) error {
 	var rep struct {
 		FailingInput struct {
 			Desc struct {
-				Op   string    `json:"op"`
-				JSON string    `json:"json"`
-				Logs []logDesc `json:"logs"`
+				Op    string    `json:"op"`
+				JSON  string    `json:"json"`
+				Input string    `json:"input"`
+				Logs  []logDesc `json:"logs"`
 			} `json:"desc"`
 		} `json:"failing_input"`
 	}
@@ -478,6 +512,15 @@ func replayC13(cfg lib.Cfg, out *lib.Out) error {
 		return err
 	}
 	ds := rep.FailingInput.Desc
+	if ds.Op == "keccak" {
+		in := abi.UnHex(ds.Input)
+		got, want := eth.Keccak(in), abi.Keccak256(in)
+		fmt.Printf("replay: eth.Keccak(%d bytes) = %x, Keccak-256 = %x\n", len(in), got, want)
+		out.Notes["replay"] = cfg.Replay
+		out.Add(lib.Case{Coq: fmt.Sprintf("CHash %s %s", abi.CB(in), abi.CB(got)), Desc: ds, Kind: "replay",
+			OracleOK: bytes.Equal(got, want), OracleMsg: "replayed case still fails"})
+		return out.Flush()
+	}
 	d, err := abi.DeclFromJSON(ds.JSON)
 	if err != nil {
 		return err
